@@ -1134,7 +1134,9 @@ fn run_x(rest: &str) -> (String, String) {
 }
 
 fn main() {
-    supervised(10000, |line| {
+    // per-case deadline: short for bulk runs, the check re-runs a case that missed it alone with a long one
+    let deadline: u64 = std::env::var("VERIF_OPT_DEADLINE_MS").ok().and_then(|v| v.parse().ok()).unwrap_or(10000);
+    supervised(deadline, |line| {
         let (kind, rest) = line.split_at(1);
         let rest = rest.trim_start();
         let r = catch(|| match kind {
